@@ -3605,6 +3605,20 @@ class Assemble(Array):
     def _compile_expression(self, func, *args):
         return _pyast.Variable('evaluable').get_attr('Assemble').get_attr('evalf').call(func, *args)
 
+    def _intbounds_impl(self):
+        lower, upper = self.func._intbounds
+        for index in self.indices:
+            if index.ndim and not isinstance(index, Range):
+                # entries that share an index are added
+                if isinstance(index, Constant):
+                    n = int(numpy.unique(index.value, return_counts=True)[1].max(initial=0))
+                else:
+                    n = util.product(length._intbounds[1] for length in index.shape)
+                if n > 1:
+                    lower = lower and lower * n
+                    upper = upper and upper * n
+        return min(lower, 0), max(upper, 0)
+
     def _compile_with_out(self, builder, out, out_block_id, mode):
         # Compiles to an assignment (or in place addition) of the form:
         #
